@@ -19,11 +19,12 @@ CONFIG = dict(
                "the `consistent` flag for overlapping groups, extended-next-hop flag read through the encoder).  Modelled, "
                "not verified: TTL / MD5 socket options; which of several overlapping dynamic groups the hash map yields "
                "(history abandoned after checking the neighbour matches one of them); tokio scheduling (each session task "
-               "runs to its end inside one `disc` step); cases are assumed well-formed as the line parser guarantees "
-               "(octets < 256, masks in range in histories, confederation id != 0).",
+               "runs to its end inside one `disc` step); well-formedness of cases (octets < 256, masks in range in "
+               "histories, confederation id != 0) is checked at run time by the drivers (wfCase_sound).",
     lean_modules=["Rbgp.Accept.Props"],
     theorems=[
         "Rbgp.Accept.Props.check_run_ok",
+        "Rbgp.Accept.Props.wfCase_sound",
         "Rbgp.Accept.Props.accept_iff",
         "Rbgp.Accept.Props.accept_iff_partial",
         "Rbgp.Accept.Props.accept_iff_full_fails",
@@ -71,15 +72,16 @@ CONFIG = dict(
                   "harness/daemon/c16.rs: builds PeerParams/PeerGroup/Global from the case, binds loopback sources, runs the "
                   "real session task with the remote end closing after the first message; capability lists are compared "
                   "after sorting their hash-ordered parts; the private extended_nexthop flag is read through the encoder",
-                  "Codec.caseOf? guarantees the well-formedness hypothesis CaseWF of check_run_ok (not proved)"],
+                  "the drivers run model and oracle only on cases passing the decidable guard Codec.wfCase, which implies "
+                  "the hypothesis CaseWF of check_run_ok (theorem wfCase_sound)"],
     modelled_not_verified=["TTL / GTSM / MD5 socket options set by accept_connection (neighbours are generated without them)",
                            "FnvHashMap iteration order among overlapping dynamic groups (only 'the new neighbour matches "
                            "one of the covering groups' is checked, then the history is abandoned)",
                            "tokio scheduling: the session task is not started at accept time but run to completion inside the "
                            "`disc` step, so a history is a sequence of atomic steps",
                            "enable_active_connect (spawned retry loop; its connects are refused) and BFD / RTC / GR timers"],
-    assumptions=["cases are well-formed (CaseWF): octets < 256, dynamic-prefix masks within the address length in histories, "
-                 "confederation identifier != 0, configured neighbours are static",
+    assumptions=["histories use well-formed configurations (CaseWF, enforced by the run-time guard wfCase): octets < 256, "
+                 "dynamic-prefix masks within the address length (what IpNet::from_str admits), confederation identifier != 0",
                  "loopback: 127.0.0.0/8 and ::1 are bindable source addresses on the test host"],
 )
 
